@@ -1,3 +1,200 @@
-(* C19 — placeholder while the model is being tied to the library; statements follow. *)
-From PNC Require Import Base.Util Model.Icartt.
+(* C19 — ICARTT (ffi1001) write/read round trip.  Property statements only; every proof is
+   `exact <lemma>` or a vm_compute witness.  Model: Model/Icartt.v (character-level text, the
+   line-number state machine of ffi1001.__init__, exact decimals for '%.6e'). *)
+From Coq Require Import String.
+From PNC Require Import Base.Util Model.Icartt Proofs.IcarttProofs.
+Local Open Scope string_scope.
+Local Open Scope list_scope.
 Local Open Scope Z_scope.
+
+(* ---- header arithmetic: count = attributes + variables + 15 ---------------------------------- *)
+
+(* Lines 2..12 are interpreted by position alone, whatever has been read before. *)
+Theorem C19_line_classes_head : forall n nm nsc ndep nattr li,
+  0 <= nm -> 0 <= nsc -> 15 <= n -> 2 <= li <= 12 ->
+  classify n nm nsc li = layout ndep nattr li.
+Proof. exact classify_head. Qed.
+Print Assumptions C19_line_classes_head.
+
+(* For EVERY number of dependent variables and attributes: with the declared count
+   attributes + variables + 15, the reader's if/elif chain interprets every header line after the
+   missing-code line as exactly what the writer put there (descriptions, the two counters, the
+   user comments, the names line). *)
+Theorem C19_line_classes : forall ndep nattr li,
+  0 <= ndep -> 0 <= nattr -> 12 < li <= nattr + ndep + 15 ->
+  classify (nattr + ndep + 15) ndep 0 li = layout ndep nattr li.
+Proof. exact classify_tail. Qed.
+Print Assumptions C19_line_classes.
+
+(* Declared = actual: if no printed header field contains a newline, the output is exactly N - 1
+   header lines, the last being the names line, followed by the data rows; N = attrs + vars + 15.
+   All files, any number of variables / attributes / records. *)
+Theorem C19_header_count_exact : forall f n ls ind sd,
+  impl_write f = Some (n, ls) ->
+  indep_name f = Some ind -> get_attr (s2z "SDATE") (f_attrs f) = Some sd ->
+  forallb no_nl (hdr_strings f ind sd) = true ->
+  exists rows, ls = map PT (hdr_strings f ind sd) ++ map PR rows
+    /\ Z.of_nat (length (hdr_strings f ind sd)) + 1 = n
+    /\ n = Z.of_nat (length (myattrs f)) + Z.of_nat (length (depvars ind f)) + 15
+    /\ last (hdr_strings f ind sd) [] = join sep (ind :: map v_name (depvars ind f)).
+Proof. exact header_count_exact. Qed.
+Print Assumptions C19_header_count_exact.
+
+(* A count that is one short (a newline inside an attribute value) turns the last attribute line
+   into the names line. *)
+Theorem C19_count_off_by_one : forall ndep nattr, 0 <= ndep -> 1 <= nattr ->
+  classify (nattr + ndep + 15) ndep 0 (nattr + ndep + 15) = K_names
+  /\ classify (nattr + ndep + 15) ndep 0 (nattr + ndep + 14) = K_user
+  /\ classify (nattr + ndep + 14) ndep 0 (nattr + ndep + 14) = K_names.
+Proof. exact classify_off_by_one. Qed.
+Print Assumptions C19_count_off_by_one.
+
+(* FULL statement "the output re-opens for any set of header attributes" is false of the faithful
+   model: a value with a newline makes the output unreadable
+   (the names line becomes a data row of NaN, which the time conversion rejects). *)
+Theorem C19_header_count_refuted : exists f,
+  in_quant f = true /\ region_of f = 2%nat /\ impl_roundtrip f = None.
+Proof. exists w_newline. vm_compute. repeat split; reflexivity. Qed.
+Print Assumptions C19_header_count_refuted.
+
+(* ---- single header lines: print then parse, for all contents ------------------------------- *)
+
+Theorem C19_desc_line : forall name u,
+  has_char cCOMMA name = false -> stripped name = true ->
+  has_char cCOMMA u = false -> stripped u = true ->
+  parse_desc (join sep [name; u]) = (name, u).
+Proof. exact parse_desc_print. Qed.
+Print Assumptions C19_desc_line.
+
+(* names and order, any number of variables *)
+Theorem C19_names_line : forall names,
+  names <> [] -> forallb word_tok names = true ->
+  forallb (fun s => negb (has_char cSLASH s)) names = true ->
+  parse_names (join sep names) = names.
+Proof. exact parse_names_print. Qed.
+Print Assumptions C19_names_line.
+
+Theorem C19_user_line : forall k v,
+  has_char cCOLON k = false -> stripped k = true ->
+  parse_user (k ++ [cCOLON; cSP] ++ v) = (k, strip v).
+Proof. exact parse_user_print. Qed.
+Print Assumptions C19_user_line.
+
+(* ---- values: seven significant digits ------------------------------------------------------ *)
+
+(* '%.6e' of any exact value x = m * 10^e: the printed decimal r is exact when x has at most 7
+   digits, otherwise within half a unit of the 7th digit; all magnitudes, signs, zero. *)
+Theorem C19_values_seven_digits : forall x,
+  let r := fmt6e x in
+  (de r <= de x -> dm r = dm x * 10 ^ (de x - de r))
+  /\ (de x < de r -> 2 * Z.abs (dm r * 10 ^ (de r - de x) - dm x) <= 10 ^ (de r - de x)).
+Proof. exact fmt6e_error. Qed.
+Print Assumptions C19_values_seven_digits.
+
+Theorem C19_values_canonical : forall x, canon7 (fmt6e x) = true.
+Proof. exact fmt6e_canon. Qed.
+Print Assumptions C19_values_canonical.
+
+(* ---- masks --------------------------------------------------------------------------------- *)
+
+(* One cell through writer and reader: if the masked array's fill value prints as the code the
+   reader will compare with, and the cell's own value does not print like the code, the mask is
+   kept and the value is the 7-digit rendering. *)
+Theorem C19_cell_roundtrip_partial : forall code fill c,
+  dec_eqb (fmt6e fill) code = true ->
+  (forall d, c = Some d -> dec_eqb (fmt6e d) code = false) ->
+  cell_rt code fill c = spec_cell c.
+Proof. exact cell_rt_spec. Qed.
+Print Assumptions C19_cell_roundtrip_partial.
+
+(* "any missing-value codes" is false: a code with more than seven digits loses every mask *)
+Theorem C19_mask_long_code_refuted : exists f,
+  in_quant f = true /\ region_of f = 3%nat /\ rt_ok f = false.
+Proof. exists w_longcode. vm_compute. repeat split; reflexivity. Qed.
+Print Assumptions C19_mask_long_code_refuted.
+
+(* a masked variable whose fill_value differs from its missing_value attribute loses its mask *)
+Theorem C19_mask_fill_refuted : exists f,
+  in_quant f = true /\ region_of f = 3%nat /\ rt_ok f = false.
+Proof. exists w_fill. vm_compute. repeat split; reflexivity. Qed.
+Print Assumptions C19_mask_fill_refuted.
+
+(* "any finite values" is false: an unmasked value that prints like the code comes back masked *)
+Theorem C19_value_collision_refuted : exists f,
+  in_quant f = true /\ region_of f = 4%nat /\ rt_ok f = false.
+Proof. exists w_collide. vm_compute. repeat split; reflexivity. Qed.
+Print Assumptions C19_value_collision_refuted.
+
+(* ---- units / codes of the independent variable, tokens ------------------------------------- *)
+
+Theorem C19_indep_meta_refuted : exists f r,
+  in_quant f = true /\ region_of f = 1%nat /\ impl_roundtrip f = Some r /\ rt_ok f = false
+  /\ map r_units (firstn 1 (r_vars r)) = [s2z "t"] /\ map r_code_s (firstn 1 (r_vars r)) = [s2z "-9999"].
+Proof. exists w_indep. eexists. vm_compute. repeat split; reflexivity. Qed.
+Print Assumptions C19_indep_meta_refuted.
+
+Theorem C19_lod_flag_refuted : exists f,
+  in_quant f = true /\ region_of f = 6%nat /\ impl_roundtrip f = None.
+Proof. exists w_lod. vm_compute. repeat split; reflexivity. Qed.
+Print Assumptions C19_lod_flag_refuted.
+
+Theorem C19_name_slash_refuted : exists f,
+  in_quant f = true /\ region_of f = 7%nat /\ rt_ok f = false.
+Proof. exists w_slash. vm_compute. repeat split; reflexivity. Qed.
+Print Assumptions C19_name_slash_refuted.
+
+Theorem C19_unit_comma_refuted : exists f,
+  in_quant f = true /\ region_of f = 7%nat /\ rt_ok f = false.
+Proof. exists w_unit_comma. vm_compute. repeat split; reflexivity. Qed.
+Print Assumptions C19_unit_comma_refuted.
+
+(* ---- auto-detection ------------------------------------------------------------------------ *)
+
+Theorem C19_autodetect_partial : forall ls l,
+  find is_level_line (firstn 99 ls) = None -> nth_error ls 26 = Some l ->
+  zip_all_eq l100_names (pline_words l) = false -> impl_detect ls = R_ffi1001.
+Proof. exact detect_long. Qed.
+Print Assumptions C19_autodetect_partial.
+
+(* every output with fewer than 28 lines is claimed by the l100 reader *)
+Theorem C19_autodetect_short : forall ls,
+  find is_level_line (firstn 99 ls) = None -> (length ls < 27)%nat -> impl_detect ls = R_l100.
+Proof. exact detect_short. Qed.
+Print Assumptions C19_autodetect_short.
+
+Theorem C19_autodetect_refuted : exists f,
+  in_quant f = true /\ region_of f = 5%nat /\ rt_ok f = true /\ detect_ok f = false.
+Proof. exists w_short. vm_compute. repeat split; reflexivity. Qed.
+Print Assumptions C19_autodetect_refuted.
+
+Theorem C19_autodetect_level_refuted : exists f,
+  in_quant f = true /\ region_of f = 5%nat /\ rt_ok f = true /\ detect_ok f = false /\ 28 <= total_lines f.
+Proof. exists w_level. vm_compute. repeat split; try reflexivity. discriminate. Qed.
+Print Assumptions C19_autodetect_level_refuted.
+
+(* ---- second cycle -------------------------------------------------------------------------- *)
+
+Theorem C19_print_idempotent : forall x, fmt6e (fmt6e x) = fmt6e x.
+Proof. exact fmt6e_idem. Qed.
+Print Assumptions C19_print_idempotent.
+
+(* a cell that went through one cycle is unchanged by the next (value and mask), for every code
+   that is itself a 7-digit decimal *)
+Theorem C19_second_cycle_cell_partial : forall code c, canon7 code = true ->
+  let back := fun x => match x with CV d => Some d | _ => None end in
+  forall fill, cell_rt code fill c = CM \/ (exists d, cell_rt code fill c = CV d) ->
+  cell_rt code code (back (cell_rt code fill c)) = cell_rt code fill c.
+Proof. exact cell_second. Qed.
+Print Assumptions C19_second_cycle_cell_partial.
+
+(* UNPROVED (DESIGN 8.1 rung 3): the composition over whole files,
+     forall f, dom f = true -> rt_ok f = true /\ second_ok f = true /\ detect_ok f = true,
+   i.e. run_header executed symbolically over the writer's output for arbitrary numbers of variables
+   and attributes.  Proved instead: the line classification for all counts (C19_line_classes, C19_line_classes_head), the
+   exact header count (C19_header_count_exact), each line parser (C19_desc_line, C19_names_line,
+   C19_user_line), each cell (C19_cell_roundtrip_partial, C19_second_cycle_cell_partial); the composition
+   is evaluated by vm_compute on the file below and compared with the library on every generated case. *)
+Example C19_domain_inhabited :
+  dom w_good = true /\ rt_ok w_good = true /\ second_ok w_good = true /\ detect_ok w_good = true
+  /\ impl_roundtrip w_good <> None.
+Proof. vm_compute. repeat split; try reflexivity; discriminate. Qed.
